@@ -335,10 +335,19 @@ func runInterfere(c *fw.Ctx, idx int, r *fw.Rand) {
 	// ---- ending ----
 	endKind := "server-closed"
 	if alive() {
-		endKind = []string{"quit", "drop", "idle-timeout"}[r.Weighted([]int{6, 2, 2})]
+		// quit-gone / unterminated-quit-gone: added after seeded change C13-12, see gone.go
+		endKind = []string{"quit", "drop", "idle-timeout", "quit-gone", "unterminated-quit-gone"}[r.Weighted([]int{5, 2, 2, 3, 1})]
 		switch endKind {
 		case "quit":
 			s.play(s.plain("QUIT", "QUIT"))
+		case "quit-gone":
+			if !s.vanish([]string{"quit", "quit+bytes"}[r.Weighted([]int{2, 1})]) {
+				return
+			}
+		case "unterminated-quit-gone":
+			if !s.vanish("unterminated") {
+				return
+			}
 		case "idle-timeout":
 			if !s.idleTimeout() {
 				return
